@@ -24,7 +24,7 @@ for i in sorted(os.listdir(src)):
             shutil.copy(os.path.join(d, f), os.path.join(dst, f))
     notes = open(os.path.join(d, "notes.md")).read() if os.path.exists(os.path.join(d, "notes.md")) else ""
     meta = {"id": f"{pid}-{tag}{i}", "property": pid, "author": "independent sub-agent given only the property text and its own worktree",
-            "needs_to_manifest": "see notes.md", "repo_head_when_confirmed": subprocess.run(["git", "-C", "/repo", "log", "--format=%h", "-1"], capture_output=True, text=True).stdout.strip(),
+            "needs_to_manifest": " ".join(notes.split())[:1800] or "see notes.md", "repo_head_when_confirmed": subprocess.run(["git", "-C", "/repo", "log", "--format=%h", "-1"], capture_output=True, text=True).stdout.strip(),
             "confirmed_by_lead": {"ran": "tools/confirm_seeded.py (scratch worktree: demo on HEAD exit 0; git apply; demo exit != 0; pytest pass-set unchanged)",
                                   **{k: info[k] for k in ("demo_on_head", "demo_with_patch", "patch_applies", "tests_newly_failing", "n_pass_head", "n_pass_patch")}},
             "checks": {}}
